@@ -53,6 +53,15 @@ Layouts == {"sep", "inpkg"}
 Selects == {"all", "named", "none"}
 PkgShapes == {"only-test-files", "no-interfaces", "all-files-tagged-off", "only-ignored-files", "doc-only-file"}
 
+\* null / empty sections of the configuration file at every level, and the free-form _anchors section
+\* (defects repaired by 19f6a9e and 0272621 lived here): all are valid YAML for the documented schema
+CfgShapes == {"package-null", "pkg-config-null", "interfaces-null", "interfaces-empty", "iface-null", "iface-config-null",
+              "configs-null", "configs-empty", "configs-null-entry", "configs-null-entry-among-entries",
+              "root-template-data-null", "pkg-template-data-null", "iface-template-data-null",
+              "anchors-nonempty", "anchors-nested", "anchors-empty", "anchors-null", "yaml-anchor-merge"}
+CfgShapeWorlds == {[kind |-> "cfgshape", decls |-> <<"iface">>, select |-> "all", spelling |-> "plain", layout |-> "sep", shape |-> s, ctx |-> x] :
+                     s \in CfgShapes, x \in {"alone", "among"}}
+
 \* every single kind under every selection mode; longer sequences under all: true
 DeclWorlds == {[kind |-> "decls", decls |-> d, select |-> x, spelling |-> "plain", layout |-> "sep", shape |-> "-", ctx |-> "-"] :
                  d \in [1..1 -> Kinds], x \in Selects}
@@ -65,7 +74,7 @@ GoModWorlds == {[kind |-> "gomod", decls |-> <<"iface">>, select |-> "all", spel
                   s \in GoModSpellings, l \in Layouts}
 PkgShapeWorlds == {[kind |-> "pkgshape", decls |-> <<>>, select |-> "all", spelling |-> "plain", layout |-> "sep", shape |-> s, ctx |-> x] :
                      s \in PkgShapes, x \in {"alone", "among"}}
-Worlds == DeclWorlds \cup RandomDeclWorlds \cup GoModWorlds \cup PkgShapeWorlds
+Worlds == DeclWorlds \cup RandomDeclWorlds \cup GoModWorlds \cup PkgShapeWorlds \cup CfgShapeWorlds
 
 \* CONTRACT: a valid world succeeds, and every must-declaration is mocked (1-based positions in decls)
 MustPositions(wd) == IF wd.select = "none" THEN {} ELSE {i \in 1..Len(wd.decls) : wd.decls[i] \in MustKinds}
